@@ -5,6 +5,7 @@ package main
 
 import (
 	"fmt"
+	"sort"
 	"go/constant"
 	"go/types"
 	"strings"
@@ -857,10 +858,50 @@ func (x *Exec) specEnvAt(b *ssa.BasicBlock, rp *retPoint) *SpecEnv {
 			env.vars[fv.Name()] = SpecVal{Cell: v.Loc, Go: fv.Type().(*types.Pointer).Elem()}
 		}
 	}
-	// named locals
-	for _, blk := range fn.Blocks {
+	// named locals. The value a source variable has at b is that of its last definition
+	// on the dominator chain of b: a DebugRef of an assignment, or the phi that merges
+	// assignments made on different branches (go/ssa records the variable's name in the
+	// phi's comment). Blocks are therefore visited in dominance order.
+	order := fn.Blocks
+	if b != nil {
+		var chain []*ssa.BasicBlock
+		for _, blk := range fn.Blocks {
+			if blk == b || blk.Dominates(b) {
+				chain = append(chain, blk)
+			}
+		}
+		depth := func(d *ssa.BasicBlock) int {
+			n := 0
+			for _, o := range chain {
+				if o != d && o.Dominates(d) {
+					n++
+				}
+			}
+			return n
+		}
+		sort.SliceStable(chain, func(i, j int) bool { return depth(chain[i]) < depth(chain[j]) })
+		// allocations are named wherever they are (cells are read at evaluation time)
+		var rest []*ssa.BasicBlock
+		for _, blk := range fn.Blocks {
+			if !(blk == b || blk.Dominates(b)) {
+				rest = append(rest, blk)
+			}
+		}
+		order = append(rest, chain...)
+	}
+	for _, blk := range order {
 		for _, ins := range blk.Instrs {
 			switch i := ins.(type) {
+			case *ssa.Phi:
+				if i.Comment == "" || strings.Contains(i.Comment, " ") || b == nil || !(blk == b || blk.Dominates(b)) {
+					continue
+				}
+				if prev, ok := env.vars[i.Comment]; ok && prev.Cell != nil {
+					continue
+				}
+				if v, ok := x.vals[i]; ok && v.Loc == nil && v.Fn == nil && v.T != "" && len(v.Tuple) == 0 {
+					env.vars[i.Comment] = SpecVal{V: v, Go: i.Type()}
+				}
 			case *ssa.Alloc:
 				if i.Comment != "" && !strings.Contains(i.Comment, " ") {
 					if v, ok := x.vals[i]; ok && v.Loc != nil && (v.Loc.Kind == LCell || v.Loc.Kind == LBox) {
@@ -890,6 +931,16 @@ func (x *Exec) specEnvAt(b *ssa.BasicBlock, rp *retPoint) *SpecEnv {
 				val, ok := x.vals[i.X]
 				if !ok {
 					if c, isConst := i.X.(*ssa.Const); isConst {
+						if c.Value == nil {
+							// `v := T{}` of a map or slice type is recorded by go/ssa as a reference to
+							// the nil constant; the variable is the value every later reference names
+							if sv, ok := singleValue(fn, id); ok {
+								if vv, ok := x.vals[sv]; ok && (b == nil || sv.(ssa.Instruction).Block() == b || sv.(ssa.Instruction).Block().Dominates(b)) {
+									env.vars[id.Name()] = SpecVal{V: vv, Go: sv.Type()}
+									continue
+								}
+							}
+						}
 						val = x.constVal(c)
 					} else {
 						continue
@@ -947,4 +998,35 @@ func (x *Exec) specEnvAt(b *ssa.BasicBlock, rp *retPoint) *SpecEnv {
 		}
 	}
 	return env
+}
+
+// singleValue: every reference go/ssa recorded for the variable, other than constants,
+// names one and the same instruction value (the variable is assigned once).
+func singleValue(fn *ssa.Function, obj types.Object) (ssa.Value, bool) {
+	var v ssa.Value
+	for _, blk := range fn.Blocks {
+		for _, ins := range blk.Instrs {
+			switch i := ins.(type) {
+			case *ssa.DebugRef:
+				if i.IsAddr || i.X == nil || i.Object() != obj {
+					continue
+				}
+				if _, isConst := i.X.(*ssa.Const); isConst {
+					continue
+				}
+				if _, isInstr := i.X.(ssa.Instruction); !isInstr {
+					return nil, false
+				}
+				if v != nil && v != i.X {
+					return nil, false
+				}
+				v = i.X
+			case *ssa.Phi:
+				if i.Comment == obj.Name() {
+					return nil, false
+				}
+			}
+		}
+	}
+	return v, v != nil
 }
